@@ -1,4 +1,5 @@
 import Flowjaxv.Proofs.Vectorize
+import Flowjaxv.Proofs.VectorizeGen
 /-!
 # C06 — batching: leading batch dimensions broadcast like NumPy, every element is the unbatched call
 
@@ -421,5 +422,213 @@ theorem check_shapes_instance :
     checkShapes [2, 3] [2, 3] = true ∧ checkShapes [2, 3] [3, 2] = false ∧ checkShapes [] [] = true ∧
     leadingShape [4, 2, 3] [2, 3] = some [4] ∧ leadingShape [4, 2, 3] [3, 3] = none ∧
     leadingShape [3] [2, 3] = none ∧ leadingShape [4, 1] [] = some [4, 1] := by decide
+
+/-! ## The batching layer as REGENERATED from the source (`Gen/DistPublicGen.lean`)
+
+`tools/py2lean/py2meth.py` translates `AbstractDistribution.log_prob / sample / sample_and_log_prob / ndim / cond_ndim /
+_vectorize` (the `in_shapes` / `out_shapes` tables, `_check_shapes`' wrapper, the `excluded` set) `/ _get_sample_keys`
+(`flowjax/distributions.py`) and `_get_ufunc_signature` (`flowjax/utils.py`) statement by statement on every run; `jnp.vectorize`
+(`Pw.jnpVectorize`: signature parse, NumPy broadcasting, per-element application — the hand model above with the signature
+string, the excluded set and the checking wrapper as arguments) and `jr.split` stay hand-modelled primitives of
+`Model/DistPublicWorld.lean`.  `gen_*_eq`: each generated function equals the hand model's for all shapes, arrays and private
+methods; the remaining theorems restate the main statements on the generated definitions.  `self` is any distribution object,
+`W.unwrap self` what `unwrap` makes of it; a private method receives `CondVal.elem (one condition slice)` when the condition is
+vectorised over and `CondVal.raw (the caller's object)` when it is excluded. -/
+section generated
+open Pw GenDist VectorizeGen
+
+/-- the generated `_get_ufunc_signature` produces the hand model's signature, which parses back to the declared core shapes -/
+theorem gen_ufunc_signature_eq (ins outs : List Shape) :
+    getUfuncSignature ins outs = ufuncSignatureChars ins outs ∧
+    String.ofList (getUfuncSignature ins outs) = ufuncSignature ins outs ∧
+    (ins ≠ [] → outs ≠ [] → parseSig (getUfuncSignature ins outs) = some (ins, outs)) :=
+  ⟨ufunc_signature_eq ins outs, ufunc_signature_string_eq ins outs, parseSig_roundtrip ins outs⟩
+
+/-- the generated `ndim` / `cond_ndim` properties -/
+theorem gen_ndim_eq (W : World X C K L) (d : DistObj X C K L) :
+    ndim W d = d.shape.length ∧ condNdim W d = d.cond_shape.map List.length :=
+  ⟨ndim_eq W d, cond_ndim_eq W d⟩
+
+/-- the generated wrapper of `_check_shapes` raises iff the hand model's `checkShapes` fails on some (declared, actual) pair;
+with it, `jnp.vectorize`'s shape pipeline is the hand model's `vectorizeLoop` -/
+theorem gen_check_shapes_eq (ins : List Shape) (args : List Shaped) (argShapes : List Shape) :
+    vectorize_checkShapes_wrapper_raises ins args = !((List.zipWith checkShapes ins (args.map (·.shape))).all id) ∧
+    vectorizeLoopWith (vectorize_checkShapes_wrapper_raises ins) ins argShapes = vectorizeLoop ins argShapes :=
+  ⟨wrapper_raises_eq ins args, vectorizeLoopWith_eq ins argShapes⟩
+
+/-- the generated `_vectorize(method)`: the selected `in_shapes` / `out_shapes` are `methodShapes`, and the returned callable is the
+hand model's `vectorize2` (conditional: nothing excluded) resp. `vectorize1` (unconditional: argument 1 excluded) -/
+theorem gen_vectorize_eq {A : Type} (W : World X C K L) (d : DistObj X C K L) (m : BoundMethod A C R)
+    (hout : m.outShapes = (methodShapes m.name d.shape d.cond_shape).2) (a : Arr A) :
+    (∀ cs, d.cond_shape = some cs →
+      (∀ c : Arr C, vectorize W d m a (some c) = vectorize2 (coreOf m.name d.shape) cs (fun a c => m.call a (.elem c)) a c) ∧
+      vectorize W d m a none = .error .typeError) ∧
+    (d.cond_shape = none →
+      ∀ c : Option (Arr C), vectorize W d m a c = vectorize1 (coreOf m.name d.shape) (fun a => m.call a (.raw c)) a) :=
+  ⟨fun cs h => vectorize_cond_eq W d m cs h hout a, fun h c => vectorize_uncond_eq W d m h hout a c⟩
+
+/-- the generated `_get_sample_keys` = hand model `sampleKeys` on `keyShape` (`key_size = prod(key_shape)` keys, reshaped row-major) -/
+theorem gen_sample_keys_eq (W : World X C K L) (d : DistObj X C K L) (key : K) (ss : Shape) :
+    (∀ cs (c : Arr C), d.cond_shape = some cs →
+        getSampleKeys W d key ss (some c) = sampleKeys W.split key (keyShape ss (some cs) (some c.shape))) ∧
+    (∀ c : Option (Arr C), d.cond_shape = none → getSampleKeys W d key ss c = sampleKeys W.split key (keyShape ss none none)) ∧
+    (∀ cs, d.cond_shape = some cs → getSampleKeys W d key ss (none : Option (Arr C)) = .error .typeError) :=
+  sample_keys_eq W d key ss
+
+/-- the generated public `log_prob` = hand model (`logProbCond` / `logProbUncond`) with the NaN → −inf line as `post` -/
+theorem gen_log_prob_wrapper_eq (W : World X C K L) (self : DistObj X C K L) (x : Arr X) (c : Option (Arr C)) :
+    (∀ cs, (W.unwrap self).cond_shape = some cs →
+      logProb W self x c
+        = logProbCond (W.unwrap self).shape cs (fun x c => (W.unwrap self).logProb x (.elem c)) (post W) x c) ∧
+    ((W.unwrap self).cond_shape = none →
+      logProb W self x c
+        = logProbUncond (W.unwrap self).shape (fun x c => (W.unwrap self).logProb x (.raw c)) (post W) x c) :=
+  ⟨fun cs h => log_prob_cond_eq W self cs h x c, fun h => log_prob_uncond_eq W self h x c⟩
+
+/-- the generated public `sample` = hand model (`sampleCond` / `sampleUncond`) -/
+theorem gen_sample_wrapper_eq (W : World X C K L) (self : DistObj X C K L) (key : K) (ss : Shape) (c : Option (Arr C)) :
+    (∀ cs, (W.unwrap self).cond_shape = some cs →
+      GenDist.sample W self key ss c = sampleCond cs (fun k c => (W.unwrap self).sample k (.elem c)) W.split key ss c) ∧
+    ((W.unwrap self).cond_shape = none →
+      GenDist.sample W self key ss c = sampleUncond (fun k c => (W.unwrap self).sample k (.raw c)) W.split key ss c) :=
+  sample_eq W self key ss c
+
+/-- the generated public `sample_and_log_prob` = hand model (`sampleLpCond` / `sampleLpUncond`) -/
+theorem gen_sample_and_log_prob_wrapper_eq (W : World X C K L) (self : DistObj X C K L) (key : K) (ss : Shape)
+    (c : Option (Arr C)) :
+    (∀ cs, (W.unwrap self).cond_shape = some cs →
+      sampleAndLogProb W self key ss c
+        = sampleLpCond cs (fun k c => (W.unwrap self).sampleLp k (.elem c)) W.split key ss c) ∧
+    ((W.unwrap self).cond_shape = none →
+      sampleAndLogProb W self key ss c
+        = sampleLpUncond (fun k c => (W.unwrap self).sampleLp k (.raw c)) W.split key ss c) :=
+  sample_lp_eq W self key ss c
+
+/-- `out_shape_log_prob` on the generated code: batch shape = NumPy broadcast of the two leading shapes, ValueError otherwise;
+unconditional: the leading shape of `x` -/
+theorem gen_out_shape_log_prob (W : World X C K L) (self : DistObj X C K L) (xb : Shape) (x : Arr X)
+    (hx : x.shape = xb ++ (W.unwrap self).shape) :
+    (∀ cs cb (c : Arr C), (W.unwrap self).cond_shape = some cs → c.shape = cb ++ cs →
+      (logProb W self x (some c)).map (fun b => [b.loop])
+        = match bcast2 xb cb with
+          | some l => .ok [l]
+          | none => .error .valueError) ∧
+    ((W.unwrap self).cond_shape = none → ∀ c : Option (Arr C), (logProb W self x c).map (fun b => [b.loop]) = .ok [xb]) := by
+  constructor
+  · intro cs cb c hcs hc
+    rw [log_prob_cond_eq W self cs hcs, ← outShape_logProb_cond_link (W.unwrap self).shape cs [], hx, hc]
+    exact outShape_logProb_cond _ cs [] xb cb
+  · intro hcs c
+    rw [log_prob_uncond_eq W self hcs, ← outShape_logProb_uncond_link (W.unwrap self).shape [] _ _ x c none, hx]
+    exact outShape_logProb_uncond _ [] xb none
+
+/-- `out_shape_sample` / `out_shape_sample_and_log_prob` on the generated code: `sample_shape + condition batch + event`
+(log-probs without the event shape), for ALL sample shapes and condition batches, zero-sized ones included -/
+theorem gen_out_shape_sample (W : World X C K L) (self : DistObj X C K L) (key : K) (ss : Shape) :
+    (∀ cs cb (c : Arr C), (W.unwrap self).cond_shape = some cs → c.shape = cb ++ cs →
+      (GenDist.sample W self key ss (some c)).map (fun b => [b.loop ++ (W.unwrap self).shape])
+        = .ok [ss ++ cb ++ (W.unwrap self).shape] ∧
+      (sampleAndLogProb W self key ss (some c)).map (fun b => [b.loop ++ (W.unwrap self).shape, b.loop])
+        = .ok [ss ++ cb ++ (W.unwrap self).shape, ss ++ cb]) ∧
+    ((W.unwrap self).cond_shape = none → ∀ c : Option (Arr C),
+      (GenDist.sample W self key ss c).map (fun b => [b.loop ++ (W.unwrap self).shape]) = .ok [ss ++ (W.unwrap self).shape] ∧
+      (sampleAndLogProb W self key ss c).map (fun b => [b.loop ++ (W.unwrap self).shape, b.loop])
+        = .ok [ss ++ (W.unwrap self).shape, ss]) := by
+  constructor
+  · intro cs cb c hcs hc
+    rw [(sample_eq W self key ss (some c)).1 cs hcs, (sample_lp_eq W self key ss (some c)).1 cs hcs,
+      ← outShape_sample_cond_link (W.unwrap self).shape cs ss [], ← outShape_sampleLp_cond_link (W.unwrap self).shape cs ss [], hc]
+    exact ⟨outShape_sample_cond _ cs ss [] cb, outShape_sampleLp_cond _ cs ss [] cb⟩
+  · intro hcs c
+    rw [(sample_eq W self key ss c).2 hcs, (sample_lp_eq W self key ss c).2 hcs,
+      ← outShape_sample_uncond_link (W.unwrap self).shape ss [] _ W.split key c none,
+      ← outShape_sampleLp_uncond_link (W.unwrap self).shape ss [] _ W.split key c none]
+    exact ⟨outShape_sample_uncond _ ss [] none, outShape_sampleLp_uncond _ ss [] none⟩
+
+/-- `zero_size_sample_ok` on the generated code -/
+theorem gen_zero_size_sample_ok (W : World X C K L) (self : DistObj X C K L) (key : K) (ss cs cb : Shape) (c : Arr C)
+    (hcs : (W.unwrap self).cond_shape = some cs) (hc : c.shape = cb ++ cs) (h : sprod (ss ++ cb) = 0) :
+    (GenDist.sample W self key ss (some c)).map (fun b => [b.loop ++ (W.unwrap self).shape])
+        = .ok [ss ++ cb ++ (W.unwrap self).shape] ∧
+    (sampleAndLogProb W self key ss (some c)).map (fun b => [b.loop ++ (W.unwrap self).shape, b.loop])
+        = .ok [ss ++ cb ++ (W.unwrap self).shape, ss ++ cb] ∧
+    (∃ keys, getSampleKeys W (W.unwrap self) key ss (some c) = .ok keys ∧ keys.shape = ss ++ cb ++ [2]) ∧
+    (∀ i, ¬ ValidIdx (ss ++ cb) i) := by
+  refine ⟨((gen_out_shape_sample W self key ss).1 cs cb c hcs hc).1, ((gen_out_shape_sample W self key ss).1 cs cb c hcs hc).2, ?_,
+    fun i hi => by have := flatIndex_lt hi; omega⟩
+  rw [(sample_keys_eq W (W.unwrap self) key ss).1 cs c hcs, hc, keyShape_cond, sampleKeys_eq]
+  exact ⟨_, rfl, rfl⟩
+
+/-- `batched_eq_elementwise_log_prob` on the generated code: an accepted batched `log_prob` has the broadcast loop shape and its
+element at every loop index is the SAME generated method called on the single slices NumPy broadcasting pairs there; in closed
+form it is `post (_log_prob(x[bIndex xb i], condition[bIndex cb i]))`, `post` = the NaN → −inf line -/
+theorem gen_batched_eq_elementwise_log_prob (W : World X C K L) (self : DistObj X C K L) (cs : Shape)
+    (hcs : (W.unwrap self).cond_shape = some cs) (x : Arr X) (c : Arr C) (out : Batched L)
+    (h : logProb W self x (some c) = .ok out) :
+    ∃ xb cb, x.shape = xb ++ (W.unwrap self).shape ∧ c.shape = cb ++ cs ∧ bcast2 xb cb = some out.loop ∧
+      ∀ i, ValidIdx out.loop i →
+        ValidIdx xb (bIndex xb i) ∧ ValidIdx cb (bIndex cb i) ∧
+        out.elem i = post W ((W.unwrap self).logProb (x.slice (bIndex xb i)) (.elem (c.slice (bIndex cb i)))) ∧
+        ∃ u, logProb W self ⟨(W.unwrap self).shape, fun _ => x.slice (bIndex xb i)⟩
+                (some ⟨cs, fun _ => c.slice (bIndex cb i)⟩) = .ok u ∧
+             u.loop = [] ∧ u.elem [] = out.elem i := by
+  rw [log_prob_cond_eq W self cs hcs] at h
+  obtain ⟨xb, cb, hx, hc, hb, hall⟩ := batched_eq_elementwise_log_prob _ cs _ (post W) x c out h
+  refine ⟨xb, cb, hx, hc, hb, fun i hi => ?_⟩
+  obtain ⟨h1, h2, u, hu, hl, he⟩ := hall i hi
+  refine ⟨h1, h2, ?_, u, ?_, hl, he⟩
+  · rw [logProbCond_eq _ cs xb cb _ (post W) x c hx hc, hb] at h
+    rw [← Except.ok.inj h]
+  · rw [log_prob_cond_eq W self cs hcs]; exact hu
+
+/-- `batched_eq_elementwise_sample` on the generated code (both samplers are the generated text with `m` the private method):
+accepted iff the condition ends in `cond_shape`; loop shape `sample_shape ++ cb`; the element at `(s, ci)` is the private method at
+the key `_get_sample_keys` put at `(s, ci)` and the condition slice `ci` -/
+theorem gen_batched_eq_elementwise_sample (W : World X C K L) (self : DistObj X C K L) (cs ss : Shape)
+    (hcs : (W.unwrap self).cond_shape = some cs) (key : K) (c : Arr C) (out : Batched X)
+    (h : GenDist.sample W self key ss (some c) = .ok out) :
+    ∃ cb keys, c.shape = cb ++ cs ∧ out.loop = ss ++ cb ∧
+      getSampleKeys W (W.unwrap self) key ss (some c) = .ok keys ∧ keys.shape = ss ++ cb ++ [2] ∧
+      ∀ s ci, s.length = ss.length → ValidIdx (ss ++ cb) (s ++ ci) →
+        ValidIdx cb ci ∧ out.elem (s ++ ci) = (W.unwrap self).sample (keys.slice (s ++ ci)) (.elem (c.slice ci)) := by
+  rw [(sample_eq W self key ss (some c)).1 cs hcs] at h
+  obtain ⟨cb, keys, hc, hl, hk, hks, hall⟩ :=
+    batched_eq_elementwise_sample cs ss (fun k c => (W.unwrap self).sample k (.elem c)) W.split key c out h
+  exact ⟨cb, keys, hc, hl, by rw [(sample_keys_eq W (W.unwrap self) key ss).1 cs c hcs]; exact hk, hks, hall⟩
+
+/-- `keys_distinct` on the generated `_get_sample_keys`: it always succeeds for an unconditional distribution (and for a conditional one
+whose condition ends in `cond_shape`), the array has shape `key_shape + (2,)`, and — `jr.split` being injective in the index — keys at
+different positions are different -/
+theorem gen_keys_distinct (W : World X C K L)
+    (hinj : ∀ k n i j, i < n → j < n → W.split k n i = W.split k n j → i = j)
+    (d : DistObj X C K L) (key : K) (ss : Shape) :
+    (d.cond_shape = none → ∀ c : Option (Arr C), ∃ keys, getSampleKeys W d key ss c = .ok keys ∧ keys.shape = ss ++ [2] ∧
+      ∀ i j, ValidIdx ss i → ValidIdx ss j → keys.slice i = keys.slice j → i = j) ∧
+    (∀ cs cb (c : Arr C), d.cond_shape = some cs → c.shape = cb ++ cs →
+      ∃ keys, getSampleKeys W d key ss (some c) = .ok keys ∧ keys.shape = ss ++ cb ++ [2] ∧
+      ∀ i j, ValidIdx (ss ++ cb) i → ValidIdx (ss ++ cb) j → keys.slice i = keys.slice j → i = j) := by
+  constructor
+  · intro hcs c
+    obtain ⟨keys, hk, hs, -, -, -, hd⟩ := keys_distinct W.split hinj key ss
+    exact ⟨keys, by rw [(sample_keys_eq W d key ss).2.1 c hcs, keyShape_uncond]; exact hk, hs, hd⟩
+  · intro cs cb c hcs hc
+    obtain ⟨keys, hk, hs, -, -, -, hd⟩ := keys_distinct W.split hinj key (ss ++ cb)
+    exact ⟨keys, by rw [(sample_keys_eq W d key ss).1 cs c hcs, hc, keyShape_cond]; exact hk, hs, hd⟩
+
+/-- non-vacuity: a concrete world and distribution object (naturals; `jr.split(k, n)[j] = (k, n, j)` coded as a number is not needed —
+the split is the triple itself); the generated methods evaluate as expected, incl. a zero-sized sample shape -/
+theorem gen_instance :
+    let W : World Nat Nat (Nat × Nat × Nat) Nat := ⟨id, fun k n j => (k.1, n, j), fun _ => false, 0, id⟩
+    let d : DistObj Nat Nat (Nat × Nat × Nat) Nat :=
+      ⟨[], some [], fun x c => match c with | .elem c => 10 * x + c | .raw _ => 0, fun k _ => k.2.2, fun k _ => (k.2.2, 0)⟩
+    String.ofList (getUfuncSignature [[3], [2, 3]] [[]]) = "(3),(2,3)->()" ∧
+    (∃ out, logProb W d ⟨[2, 1], fun i => flatIndex [2, 1] i⟩ (some ⟨[3], fun i => 5 + flatIndex [3] i⟩) = .ok out ∧
+      out.loop = [2, 3] ∧ out.elem [1, 2] = 17) ∧
+    (∃ out, GenDist.sample W d (7, 0, 0) [2] (some ⟨[3], fun _ => 0⟩) = .ok out ∧ out.loop = [2, 3] ∧ out.elem [1, 2] = 5) ∧
+    (∃ out, GenDist.sample W d (7, 0, 0) [0] (some ⟨[3], fun _ => 0⟩) = .ok out ∧ out.loop = [0, 3]) ∧
+    logProb W d ⟨[2], fun _ => 0⟩ none = .error .typeError := by
+  refine ⟨by decide, ⟨_, rfl, rfl, by decide⟩, ⟨_, rfl, rfl, by decide⟩, ⟨_, rfl, rfl⟩, rfl⟩
+
+end generated
 
 end C06
